@@ -2,7 +2,7 @@
 from common import *
 import scripts
 
-THEOREMS = []
+THEOREMS = ['fault_surfaces', 'first_request_fails', 'generic_read_fault']
 RULE = ("for each generated (mode, input, script) case the implementation driver counts the requests r the routine issues on a fault-free "
         "contract-asserting source (stingy / chunked / over-granting), then re-runs it with the k-th request failing for every k < r (at most "
         "48 evenly spaced k for long runs): the call must return exactly the injected source error (Display == marker) — never a value, a "
@@ -26,8 +26,17 @@ def gen(tier, rng):
         out.append("faultsweep %s %s %s %s" % (m, pol, hx(d), s))
         # the fault-free run is also compared with the model
         out.append("run %s %s %s %s" % (m, pol, hx(d), s))
+        # exact prediction by the stream-layer model: number of requests issued, and the outcome
+        # with the k-th request failing (capture-free scripts; others are answered "nomodel")
+        if pol in ("stingy", "chunk1", "chunk3", "plus2", "all"):
+            out.append("run %s count:%s %s %s" % (m, pol, hx(d), s))
+            for k in rng.sample(range(0, 24), 3):
+                out.append("run %s fail%d:%s %s %s" % (m, k, pol, hx(d), s))
     for (m, d, sc) in scripts.leaf_battery(rng, 3000 if tier == "quick" else 30000):
-        out.append("faultsweep %s %s %s %s" % (m, rng.choice(["stingy", "chunk1", "plus2"]), hx(d), sc))
+        pol = rng.choice(["stingy", "chunk1", "plus2"])
+        out.append("faultsweep %s %s %s %s" % (m, pol, hx(d), sc))
+        out.append("run %s count:%s %s %s" % (m, pol, hx(d), sc))
+        out.append("run %s fail%d:%s %s %s" % (m, rng.randrange(0, 8), pol, hx(d), sc))
     return out
 
 def relational(reqs, answers):
@@ -41,5 +50,5 @@ def nontrivial(req, ans):
     return ans.startswith("ok requests=") and not ans.startswith("ok requests=0 ")
 
 LEVEL = "proof"
-LEVEL_TEXT = "see THEOREMS"
-LEVEL_NOTE = ""
+LEVEL_TEXT = 'Lean 4 theorem (same program induction): for every capture-free routine, input, conforming policy and EVERY position k of the failing request, the result is the injected source error or - if fewer than k+1 requests are issued - exactly the fault-free result; never another value, a content error in its place, or a panic (fault_surfaces). The stream-layer model predicts the number of requests and the outcome for each k exactly; the check compares these predictions with the real crate and sweeps every request position (faultsweep).'
+LEVEL_NOTE = 'Trusted: Lean 4.33 kernel; axioms propext, Classical.choice, Quot.sound only; the hand-written model (lean/Bcder/Model) tied to /repo on every run by differential correspondence (tools/check.py, harness/, lean/Driver.lean); reference definitions lean/Bcder/Spec. PARTIAL: capture-using routines are covered by the fault sweeps only (see C07). The fault is a failing Source::request.'
